@@ -42,12 +42,35 @@ def gen_consts(v):
     robe_cases = re.findall(r'case\s+(?:BaseRobeWidget::)?(\w+)\s*:\s*(\w+)\s*\(', mm.group(1))
     handler_ids = {'HandleRDMResponse': 1, 'HandleDiscoveryResponse': 2, 'HandleDmxFrame': 3}
     ents += [('ROBEL_' + name, 'ola::plugin::usbpro::BaseRobeWidget::' + name) for name, _ in robe_cases]
+    # EnttecUsbProWidgetImpl::HandleMessage / HandleLabel: label -> (port, handler), from the source text;
+    # the label values come from the compiled header (enum in EnttecUsbProWidgetImpl.h)
+    esrc = re.sub(r'//[^\n]*', '', open(v.repo_path('plugins/usbpro/EnttecUsbProWidget.cpp')).read())
+    hsrc = re.sub(r'//[^\n]*', '', open(v.repo_path('plugins/usbpro/EnttecUsbProWidgetImpl.h')).read())
+    fm = re.search(r'struct OperationLabels\s*\{(.*?)static', hsrc, re.S)
+    fields = re.findall(r'uint8_t\s+(\w+)\s*;', fm.group(1)) if fm else []
+    def ops_names(which):
+        mo = re.search(r'OperationLabels::%s\(\)\s*\{\s*OperationLabels ops = \{(.*?)\};' % which, esrc, re.S)
+        return [x.strip() for x in mo.group(1).split(',') if x.strip()] if mo else []
+    p1, p2 = ops_names('Port1Operations'), ops_names('Port2Operations')
+    hl = re.search(r'void EnttecUsbProWidgetImpl::HandleLabel\([^)]*\)\s*\{(.*?)\n\}', esrc, re.S)
+    chain = re.findall(r'ops\.(\w+)\s*==\s*label\)\s*\{\s*port->(\w+)\s*\(', hl.group(1)) if hl else []
+    hm = re.search(r'void EnttecUsbProWidgetImpl::HandleMessage\([^)]*\)\s*\{(.*?)\n\}', esrc, re.S)
+    thr = re.search(r'label\s*>\s*(\d+)\s*&&\s*m_ports\.size\(\)\s*>\s*1', hm.group(1)) if hm else None
+    pa = re.search(r'PORT_ASSIGNMENT_LABEL\s*=\s*(\d+)', esrc)
+    if not (fields and len(p1) == len(fields) and len(p2) == len(fields) and chain and thr and pa):
+        return 'Enttec label dispatch not recognised in plugins/usbpro/EnttecUsbProWidget.cpp'
+    ehandlers = {'HandleParameters': 1, 'HandleRDMTimeout': 2, 'HandleIncomingDataMessage': 3, 'HandleDMXDiff': 4}
+    enttec_rows = []
+    for port, names in ((1, p1), (2, p2)):
+        for field, handler in chain:
+            enttec_rows.append((names[fields.index(field)], port, ehandlers.get(handler, 99)))
+    ents += [('ENTL_' + n, 'ola::plugin::usbpro::' + n) for n, _, _ in enttec_rows]
     tmp = os.path.join(v.BUILD, ID, 'Gen.headers.v')
     os.makedirs(os.path.dirname(tmp), exist_ok=True)
     if os.path.exists(tmp):
         os.unlink(tmp)
     err = v.gen_consts_cpp(ID, ['plugins/usbpro/BaseUsbProWidget.h', 'plugins/usbpro/BaseRobeWidget.h',
-                                'plugins/openpixelcontrol/OPCConstants.h', 'libs/acn/TCPTransport.h',
+                                'plugins/usbpro/EnttecUsbProWidget.h', 'plugins/usbpro/EnttecUsbProWidgetImpl.h', 'plugins/openpixelcontrol/OPCConstants.h', 'libs/acn/TCPTransport.h',
                                 'libs/acn/BaseInflator.h', 'libs/acn/PDU.h', 'ola/acn/CID.h', 'ola/acn/ACNFlags.h', 'ola/acn/ACNVectors.h', 'common/rpc/RpcChannel.h', 'common/rpc/RpcHeader.h'], ents, tmp)
     if err:
         return err
@@ -72,7 +95,15 @@ def gen_consts(v):
     extra = ('From Coq Require Import List.\n'
              'Definition ACN_HEADER : list N := %s.\nDefinition ACN_HEADER_SIZE : N := %d.\n'
              'Definition ACN_INITIAL_SIZE : N := %d.\n' % (lst, len(hdr), int(m2.group(1))))
-    new = open(tmp).read() + extra + extra_robe
+    etable = 'nil'
+    for n, port, handler in reversed(enttec_rows):
+        etable = '(cons (pair ENTL_%s (pair %d %d)) %s)' % (n, port, handler, etable)
+    extra_enttec = ('(* EnttecUsbProWidgetImpl::HandleLabel: label -> (port, handler): 1 HandleParameters, 2 HandleRDMTimeout, '
+                    '3 HandleIncomingDataMessage, 4 HandleDMXDiff; port 2 labels apply above the threshold on a dual-port widget *)\n'
+                    'Definition ENTTEC_DISPATCH : list (N * (N * N)) := %s.\n'
+                    'Definition ENTTEC_PORT2_THRESHOLD : N := %d.\nDefinition ENTTEC_PORT_ASSIGNMENT_LABEL : N := %d.\n'
+                    % (etable, int(thr.group(1)), int(pa.group(1))))
+    new = open(tmp).read() + extra + extra_robe + extra_enttec
     out = os.path.join(v.VERIF, 'props', ID, 'coq', 'Gen.v')
     if not os.path.exists(out) or open(out).read() != new:
         with open(out, 'w') as f:
@@ -603,7 +634,7 @@ LEVEL_TEXT = ('Coq theorems over executable models of the code, for all five fra
               'c10_*_bounds); any interleaving of data arrivals and callback invocations of a level-triggered poller '
               'delivers the same (c10_schedule_*). For OPC the set of channels with a registered callback is a parameter of model, reference framer and theorems (frames of unregistered channels are skipped and nothing read alongside them is lost: c10_opc_unregistered_skipped); the harness registers callbacks for generated subsets. The OPC theorems are stated for the linear-time machine the '
               'correspondence runs and rest on a proved simulation of the branch-for-branch model '
-              '(c10_opc_fast_refines). Further: the OPC capacity window over a connection history (c10_opc_capacity: CheckSize growth is sufficient and bounded), the Robe resynchronisation points (c10_robe_resync), the real RobeWidget label switch on top of the framer (table regenerated from the source, c10_robe_dispatch) and a real ACN RootInflator with and without child inflators behind the transport (c10_acn_root_chunk_free, c10_acn_root_skip), each also in the correspondence. The correspondence also runs USB Pro and Robe streams with every byte value through a pseudo terminal opened with BaseUsbProWidget::OpenDevice() (the real serial path incl. the tty line discipline), several live instances per framer fed interleaved partial reads (c10_instances_independent: each behaves as if alone) and a long-lived OPC server whose clients drop at any offset inside a frame before the next connection (each connection is framed from a fresh state). Not covered by a theorem: the tty line discipline itself, RpcChannel buffer (re)allocation (C09), the Enttec widget label dispatch and the '
+              '(c10_opc_fast_refines). Further: the OPC capacity window over a connection history (c10_opc_capacity: CheckSize growth is sufficient and bounded), the Robe resynchronisation points (c10_robe_resync), the real RobeWidget label switch on top of the framer (table regenerated from the source, c10_robe_dispatch) and a real ACN RootInflator with and without child inflators behind the transport (c10_acn_root_chunk_free, c10_acn_root_skip), each also in the correspondence. The correspondence also runs USB Pro and Robe streams with every byte value through a pseudo terminal opened with BaseUsbProWidget::OpenDevice() (the real serial path incl. the tty line discipline), several live instances per framer fed interleaved partial reads (c10_instances_independent: each behaves as if alone) and a long-lived OPC server whose clients drop at any offset inside a frame before the next connection (each connection is framed from a fresh state). The Enttec widget label routing (HandleMessage/HandleLabel, table regenerated from the source) is stated over the framer model (c10_enttec_dispatch) but the Enttec widget is not in the correspondence. Not covered by a theorem: the tty line discipline itself, RpcChannel buffer (re)allocation (C09) and the '
               'protobuf parser itself.')
 LEVEL_NOTE = ('Trusted: Coq kernel, extraction (ExtrOcamlBasic), OCaml/C++ glue, the ld --wrap=read interposer, generator '
               'coverage of the correspondence (model = code is validated by differential testing on pipes/socket pairs '
